@@ -296,6 +296,8 @@ def profile_for(pid, tier):
     elif pid == "C15":
         G["root_kinds"] = {"dimap": 8, "map": 2, "contramap": 2, "static": 1}
         G["post_xformed"] = 0.9
+        G["post_discarded"] = 0.5
+        P["single_arg_change"] = 0.5
         P["argchange"] = 0.8
         P["ops"].update({"update": 8, "empty_edit": 3})
     elif pid == "C16":
@@ -553,6 +555,14 @@ def gen_session(session_seed, pid, tier, profile=None):
                     elif rng.random() < 0.5 and t != ["N"]:
                         new_args[i] = sample_value(rng, t, oob=oob and t[0] == "I")
                         changed = True
+                sa = P.get("single_arg_change", 0.0)
+                if sa > 0 and rng.random() < sa:
+                    cand = [i for i, t in enumerate(ins) if t != ["N"]]
+                    if cand:
+                        i = rng.choice(cand)
+                        new_args = list(src["args"])
+                        new_args[i] = sample_value(rng, ins[i])
+                        changed = new_args != list(src["args"])
                 ki = P.get("keep_index", 0.0)
                 if ki > 0 and unwrap(node)["k"] in ("switch", "or_else") and node["k"] in ("switch", "or_else") and rng.random() < ki:
                     # same branch, other arguments: nothing may be resampled
